@@ -738,6 +738,30 @@ impl Suite for Capture {
             leak_enters: false,
         };
         let mut prog = program::gen_program(rng, &gcfg);
+        if idx % 60 == 13 {
+            // deep nesting: a chain of well over a hundred spans, each entered inside the previous
+            // one (a recursive `#[instrument]` function), with an event at the bottom
+            let depth = rng.range(129, 170);
+            let mut ops = vec![];
+            for h in 0..depth {
+                ops.push(POp::New { k: 0, parent: program::PParent::Ctx, vals: vec![] });
+                ops.push(POp::Ent(h));
+            }
+            ops.push(POp::Evt { k: 1, parent: program::PParent::Ctx, vals: vec![] });
+            for h in (0..depth).rev() {
+                ops.push(POp::Ext(h));
+                if rng.chance(2, 3) {
+                    ops.push(POp::Drp(h));
+                }
+            }
+            let mut span_site = crate::gen::site(rng, Some(true), 1);
+            let mut event_site = crate::gen::site(rng, Some(false), 1);
+            (span_site.level, event_site.level) = (2, 2);
+            prog = program::Program { sites: vec![span_site, event_site], ops, malformed: false };
+            let mut lines = vec!["layers 1".to_owned(), format!("lfilter 0 {}", Filt::All.tok())];
+            lines.extend(prog.lines());
+            return lines;
+        }
         // nothing is tunnelled here, so non-finite floats and signed zeros are fair game
         for op in &mut prog.ops {
             if let POp::New { vals, .. } | POp::Rec { vals, .. } | POp::Evt { vals, .. } = op {
